@@ -285,6 +285,8 @@ pub(super) fn anchor_split(
         let new_cid = ctx.cid.gen();
 
         let old_name = ctx.ensure_column_name(*old_cid).cloned();
+        #[cfg(prqlc_verif)]
+        ctx.verif_ensured(*old_cid);
 
         let mut new_name = old_name;
         if let Some(new) = &mut new_name {
